@@ -18,7 +18,7 @@ ASSUMPTIONS = [
     "layer 2 (every call, also failed children assignments with rollbacks): the forest changes only between a _pre_detach/_post_detach pair (node leaves old parent) or a _pre_attach/_post_attach pair (node becomes last child of new parent)",
     "layer 3: in-hook snapshots show the documented before/after states",
     "hook logs of failed children assignments are not prescribed by the statement; only layers 2 and 3 apply to them",
-    "calls in which a hook edits the tree itself (plan 'evict': the hook detaches the first other child of its parent argument) are judged by layer 3 and link consistency only",
+    "calls in which a hook edits the tree itself (plan 'evict': a per-node hook detaches the first other child of its parent argument, a *_children hook re-files the first listed child under another node) are judged by layer 3 and link consistency only",
 ]
 CLASS_SPECS = ["HNM", "HLM", "HNode", "HDictLM", ["HNode", "HAnyNode", "HSymlink", "HNM"], ["HLM", "HDictLM"]]
 
